@@ -88,7 +88,27 @@ struct PartA {
     distinct_watermarks: usize,
 }
 
+/// A report may be repeated any number of times: 300 duplicates of a below-quorum count for one version, then the
+/// quorum count - the watermark must reach the version (and nothing may panic on the way).
+fn many_duplicates(ctx: &Ctx, rf: u8) {
+    let q = quorum(rf);
+    let r = vcommon::catch(|| {
+        let mut st = PartitionConfirmationState::new(7);
+        for _ in 0..300 {
+            st.update_confirmation(1, q.saturating_sub(1), rf);
+        }
+        st.update_confirmation(1, q, rf);
+        st.confirmed_watermark.get()
+    });
+    match r {
+        Ok(1) => {}
+        Ok(w) => ctx.violation("C08/many-duplicates/final-watermark-wrong", &format!("300 duplicates of count {} for version 1, then count {q}: watermark {w}", q.saturating_sub(1)), json!({"part": "A", "rf": rf, "duplicates": 300})),
+        Err(p) => ctx.violation("C08/many-duplicates/panic", &format!("300 duplicates of count {} for version 1: update_confirmation panicked: {p}", q.saturating_sub(1)), json!({"part": "A", "rf": rf, "duplicates": 300})),
+    }
+}
+
 fn part_a(ctx: &Ctx, rf: u8, max_depth: usize, samples: &Samples) -> PartA {
+    many_duplicates(ctx, rf);
     let q = quorum(rf);
     let counts = counts_for(rf);
     let init = Node_ { real: PartitionConfirmationState::new(7), best: [None; NV], latest: [None; NV], path: vec![] };
